@@ -70,6 +70,10 @@ def main():
                     a, b = mk2(), mk2()
                     a.store_blob("k1", "value-of-k1", None)
                     b.store_blob("k2", "value-of-k2", None)
+                    # blobs are shared by every store object on the internal directory, whichever was created first
+                    for who, st_, k_ in (("the first store object", a, "k2"), ("the second store object", b, "k1")):
+                        if not st_.has_blob(k_) or st_.fetch_blob(k_) != "value-of-" + k_:
+                            note(None, "[%s] two store objects on one internal directory: %s does not see the blob %s stored by the other one (has_blob %r, fetch_blob %r)" % (kind, who, k_, st_.has_blob(k_), st_.fetch_blob(k_)))
                     a.sync_paths(OrderedDict([(p_, "k1")]))
                     if variant == "other_writer_repoints":
                         b.sync_paths(OrderedDict([(p_, "k2")]))
@@ -97,7 +101,7 @@ def main():
         from replay.h_dbfs import FakeDbutils
         from dds.codecs.databricks import DBFSStore, DBFSURI, CommitType
 
-        for kind in ("memory", "local", "local+cache", "dbfs"):
+        for kind in ("memory", "local", "local+cache", "local-symlinked", "dbfs"):
             for it in range(nseq if kind != "dbfs" else nseq // 2):
                 evals += 1
                 d = os.path.join(tmp, "%s_%d" % (kind.replace("+", "_"), it))
@@ -108,6 +112,12 @@ def main():
                         return None
                     if kind == "dbfs":
                         return DBFSStore(DBFSURI.parse("dbfs:/int"), DBFSURI.parse("dbfs:/data"), db, CommitType.FULL)
+                    if kind == "local-symlinked":
+                        # the store directories are reached through a symbolic link (a linked data volume, /tmp -> /private/tmp)
+                        real = d + "_real"
+                        if not os.path.lexists(d):
+                            os.makedirs(real, exist_ok=True)
+                            os.symlink(real, d)
                     s = LocalFileStore(os.path.join(d, "int"), os.path.join(d, "data"))
                     return LRUCacheStore(s, 2) if kind == "local+cache" else s
 
@@ -182,6 +192,14 @@ def main():
                     elif op == "other_writer" and kind != "memory" and paths and blobs:
                         # another process (another store object on the same directories) re-commits a path
                         other = mk()
+                        if rnd.random() < 0.5:
+                            # ... after storing a blob of its own, which this store object must see from now on
+                            nk = rnd.choice(["k1", "k2", "k3", "k4"])
+                            if nk not in blobs:
+                                nv = "" if nk == "k3" else (None if nk == "k4" else "value-of-" + nk)
+                                other.store_blob(nk, nv, None)
+                                blobs[nk] = nv
+                                ops.append("other_writer_store(%s)" % nk)
                         p_ = rnd.choice(list(paths))
                         k_ = rnd.choice(list(blobs))
                         ops.append("other_writer_sync(%s -> %s)" % (p_, k_))
@@ -197,11 +215,14 @@ def main():
                 if len(samples) < 3 and len(ops) > 3:
                     samples.append({"store": kind, "ops": ops})
                 if kind not in ("memory", "dbfs"):
+                    if os.path.islink(d):
+                        os.remove(d)
+                        shutil.rmtree(d + "_real", ignore_errors=True)
                     shutil.rmtree(d, ignore_errors=True)
     finally:
         shutil.rmtree(tmp, ignore_errors=True)
     print(json.dumps({
-        "scope": "18 directed two-writer histories + %d random operation sequences (2..8 ops incl. another store object on the same directories, seed %d) per store kind x 4 store kinds (memory, local, cache-wrapped local, DBFS over a fake dbutils), paths from %d-name alphabet incl. a/b/ab, dots, spaces, unicode, '.'/'..'" % (nseq, seed, len(PATHS) + len(ODD)),
+        "scope": "18 directed two-writer histories + %d random operation sequences (2..8 ops incl. another store object on the same directories, seed %d) per store kind x 5 store kinds (memory, local, cache-wrapped local, local reached through a symbolic link, DBFS over a fake dbutils), paths from %d-name alphabet incl. a/b/ab, dots, spaces, unicode, '.'/'..'" % (nseq, seed, len(PATHS) + len(ODD)),
         "evaluations": evals, "distinct_nontrivial": evals,
         "rule": "one case per (store kind, random operation sequence), compared step by step with a dictionary model",
         "samples": samples, "violations": violations,
